@@ -176,7 +176,7 @@ def run(index, rep, tier):
         nops = 0
         for fi in index.methods_of(TA):
             nops += parallel_lists_rule(rep, "R06.1", fi, TREE_LISTS)
-        rep.floor("R06.1", "length-changing operations on the per-tree lists", 14, nops)
+        rep.floor("R06.1", "length-changing operations on the per-tree lists", 8, nops)
 
     # ---- R06.2
     with rep.section("R06.2"):
@@ -201,7 +201,7 @@ def run(index, rep, tier):
 
     # ---- R06.2 like to like
     with rep.section("R06.2 like to like"):
-        rep.floor("R06.2", "field-to-field merges in SplitDistribution.update", 5, like_to_like_rule(index, rep, "R06.2", ["dendropy.datamodel.treecollectionmodel.SplitDistribution.update"]))
+        rep.floor("R06.2", "field-to-field merges in SplitDistribution.update", 3, like_to_like_rule(index, rep, "R06.2", ["dendropy.datamodel.treecollectionmodel.SplitDistribution.update"]))
 
     # ---- R06.7
     with rep.section("R06.7"):
@@ -573,6 +573,30 @@ def run(index, rep, tier):
                     rep.check(w is None, "R06.13", f.qualname, "result of `%s` used without a test for None" % call_name(st.value), fn_where(f, w.ast if w is not None and w.ast is not None else st), "%s: the result of %s is tested before use" % (f.name, call_name(st.value)),
                               "%s uses the result of `%s` (`%s`) without testing it, but that helper answers None when its source holds no tree (it returns from inside its loop and otherwise falls off the end): with an empty first input file the multiprocessing route dies with \"'NoneType' object is not iterable\" while the serial route summarises the remaining files" % (f.qualname, call_name(st.value), norm_stmt(st)[:60]))
         rep.floor("R06.13", "uses of helpers that may answer None", 1, n13)
+
+    # ---- R06.16 partial results are merged whatever namespace object they carry
+    with rep.section("R06.16"):
+        rep.rule("R06.16", "partial results are merged whatever namespace OBJECT they carry: TreeArray.update - the method sumtrees collates the workers' arrays with, which arrive unpickled with a copy of the namespace - neither tests nor asserts identity of the two namespaces, directly or through an own method it calls (extend() does assert it, so update() may not be written in terms of extend())")
+        up = index.function(TA + ".update")
+        seen_q, work = set(), [(up, 0)]
+        bad = None
+        while work:
+            f, d = work.pop()
+            if f.qualname in seen_q:
+                continue
+            seen_q.add(f.qualname)
+            for x in ast.walk(f.node):
+                if isinstance(x, ast.Compare) and len(x.ops) == 1 and isinstance(x.ops[0], (ast.Is, ast.IsNot)) and "taxon_namespace" in norm(x.left) and "taxon_namespace" in norm(x.comparators[0]):
+                    bad = bad or (f, x)
+            if d < 2:
+                for c in calls_in(f.node):
+                    if isinstance(c.func, ast.Attribute) and norm(c.func.value) == "self":
+                        grade, cands = index.resolve_call(c, f)
+                        cs = [k for k in cands if hasattr(k, "node") and isinstance(k.node, ast.FunctionDef)]
+                        if grade == "self" and len(cs) == 1 and cs[0].cls is not None and cs[0].cls.qualname == TA:
+                            work.append((cs[0], d + 1))
+        rep.check(bad is None, "R06.16", up.qualname, "namespace identity demanded on the merge path", fn_where(bad[0], bad[1]) if bad else fn_where(up), "TreeArray.update merges without demanding namespace identity (%d methods examined)" % len(seen_q),
+                  "TreeArray.update reaches `%s` (in %s): the arrays the sumtrees master collects from its workers come through a multiprocessing queue and carry their own unpickled copy of the namespace, so the identity test fails for every non-empty partial result - `sumtrees -m N` dies where the serial run gives the summary" % (norm(bad[1]) if bad else "", bad[0].qualname if bad else ""))
 
 
 def _root_of(e):
